@@ -409,6 +409,13 @@ ExecChecks ==
             e == Isc[CHOOSE i \in sel : TRUE]
         IN e.idx + 1 \in DOMAIN q.classes /\ q.size_class = q.classes[e.idx + 1] /\ p.timeout = e.to /\ p.exp_dur = e.exp,
       "C07:task-not-placed-on-selected-size-class">>,
+    \* C05: "whose size class is the one selected for the current attempt"
+    <<\A id \in fresh : sel # {} =>
+        LET p == TaskOf(Post, id)
+            q == Post.queues[TaskQueueIdx(Post, p)]
+            e == Isc[CHOOSE i \in sel : TRUE]
+        IN e.idx + 1 \in DOMAIN q.classes /\ q.size_class = q.classes[e.idx + 1],
+      "C05:task-not-placed-on-the-selected-size-class">>,
     <<fresh # {} => Cardinality(sel) = 1, "C07:task-created-without-select">>,
     <<(fresh = {} /\ Line.first) => \E i \in DOMAIN Isc : Isc[i].k = "sel_abandoned" /\ Isc[i].sel = selOf[Actor],
       "C07:selector-not-abandoned-for-merged-or-rejected-request">>
@@ -466,6 +473,14 @@ RetryChecks ==
         IN /\ q.prefix = old.prefix /\ q.platform = old.platform
            /\ q.size_class = q.classes[Len(q.classes)],
       "C07:retry-not-on-largest-size-class">>,
+    \* C05: the size class of the retry attempt is the largest of the same platform queue
+    <<\A id \in back :
+        LET p == TaskOf(Post, id)
+            q == Post.queues[TaskQueueIdx(Post, p)]
+            old == S.queues[TaskOf(S, id).worker_queue + 1]
+        IN /\ q.prefix = old.prefix /\ q.platform = old.platform
+           /\ q.size_class = q.classes[Len(q.classes)],
+      "C05:retry-attempt-not-placed-on-the-largest-size-class">>,
     <<(fl # {} /\ Accepted) =>
         LET id == CompletedTaskId(Call) IN HasTask(Post, id) /\ Live(TaskOf(Post, id)) /\
           TaskOf(Post, id).timeout = Isc[CHOOSE i \in fl : TRUE].to,
